@@ -19,7 +19,7 @@ CONSTANTS
   KTimes <- KT_two
   KConcs <- KC_two
   Wrongs <- W_none
-  CPlans <- Plans_two
+  CPlans <- Plans_q
   TUnits = {"s"}
   KRegs <- KRegs6
   Outs <- Outs_one
